@@ -15,6 +15,7 @@
     YMD unit / UNITOF hex                            → calendar functions (stateless)
 -/
 import Golib.Logger.Model
+import Golib.Logger.CalReal
 import Driver.Common
 
 open Logger Drv
@@ -70,7 +71,8 @@ def showRead : ReadRes → String
 def showDec : Dec → String
   | .gate => "gate" | .rate => "rate" | .written => "w"
 
-def cal : Cal := Cal.std
+/-- the calendar of C19's CodeModel (proved Gregorian for 2000–2099) -/
+def cal : Cal := Cal.c19
 
 def withSt (st : Option St) (f : St → St × String) : Option St × String :=
   match st with
